@@ -47,6 +47,10 @@ def spec_items(tier):
     # discount close to 1 / many self-loops: the evaluation system is badly scaled (rows of size 1-gamma)
     yield from build.enum_mdps(3, [('a',)], 0, [F(1), F(-1)], [()], [build.INIT_MENU[3][1]], [F(99, 100)], nonpositive_when_undiscounted=False)
     yield from build.enum_mdps(4, [('a',)], 0, [F(1)], [()], [build.INIT_MENU[4][1]], [F(9, 10)], nonpositive_when_undiscounted=False)
+    # discounts close to 1 (values ~ 1/(1-gamma)): 0.99 in full, 0.999 reduced (known finding K6 lives there)
+    yield from build.enum_mdps(2, [('a',), ('a', 'b')], 1, R3, [(), (1,)], [build.INIT_MENU[2][1]], [F(99, 100)], nonpositive_when_undiscounted=False)
+    yield from build.enum_mdps(2, [('a', 'b')], 1, [F(-1), F(1)], [()], [build.INIT_MENU[2][1]], [F(999, 1000)], nonpositive_when_undiscounted=False)
+    yield from build.enum_mdps(2, [('a', 'b')], 1, [F(-1), F(1)], [(1,)], [build.INIT_MENU[2][1]], [F(99999, 100000)], nonpositive_when_undiscounted=False)
     if tier == 'quick':
         yield from build.enum_mdps(2, AS, 1, R3, [(), (1,)], [build.INIT_MENU[2][2]], [F(9, 10), F(1)],
                                    nonpositive_when_undiscounted=False)
@@ -75,7 +79,19 @@ def check(item, tier):
         mdp = build.SpecMDP(spec, SLAB[li], ALAB[li], explicit_lists=(li % 2 == 0))
         sl, al = mdp.sl, mdp.al
         try:
-            res = MultichainPolicyIteration(max_iterations=300).plan_on(mdp)
+            planner = MultichainPolicyIteration(max_iterations=300)
+            if li % 2 == 1:
+                # planner objects are reusable and an MDP object's discount_rate is a plain attribute: the same planner first
+                # plans the same MDP object under another discount, then the discount is set to the one under test
+                other = 0.5 if spec.gamma != F(1, 2) else 0.9
+                mdp.discount_rate = other
+                try:
+                    planner.plan_on(mdp)
+                except Exception:
+                    pass
+                mdp.discount_rate = float(spec.gamma)
+                r.count('reused_planner_instances')
+            res = planner.plan_on(mdp)
         except Exception as e:
             r.count('planner_exceptions')
             r.outcome(('exc', type(e).__name__))
@@ -103,15 +119,27 @@ def check(item, tier):
         if spec.gamma < 1:
             V, Q = refmdp.optimal(spec)
             vals = set()
+            # class of known finding K6: discount within 1/500 of 1 AND the returned policy is a fixed point of the planner's own
+            # tolerant improvement test (no action's exact one-step advantage under the returned policy exceeds isclose's
+            # rtol 1e-5 / atol 1e-8, with a factor 2 for round-off) -- only then is the sub-optimality explained by K6
+            k6 = None
+            if (1 - spec.gamma) <= F(1, 500) and ok:
+                try:
+                    Vp, Qp = refmdp.eval_policy(spec, pi)
+                    stable = all(float(Qp[s, a]) - float(Vp[s]) <= 2 * (1e-8 + 1e-5 * abs(float(Qp[s, a])))
+                                 for s in present if s not in A for a in spec.acts[s])
+                    k6 = 'K6' if stable else None
+                except Exception:
+                    k6 = None
             for s in present:
                 got = float(res.state_value[sl(s)])
                 if not abs(got - float(V[s])) <= 1e-6 * max(1, abs(float(V[s]))):
-                    r.violation('state_value', {'s': s, 'got': got, 'want': V[s]}, item)
+                    r.violation('state_value', {'s': s, 'got': got, 'want': V[s]}, item, finding=k6)
             if ok:
                 Vpi, _ = refmdp.eval_policy(spec, pi)
                 for s in present:
                     if Vpi[s] != V[s]:
-                        r.violation('policy_value_suboptimal', {'s': s, 'Vpi': Vpi[s], 'Vstar': V[s], 'pi': pi}, item)
+                        r.violation('policy_value_suboptimal', {'s': s, 'Vpi': Vpi[s], 'Vstar': V[s], 'pi': pi}, item, finding=k6)
             if any(len({Q[s, a] for a in spec.acts[s]}) > 1 for s in present if s not in A):
                 r.nontriv(spec_item)
         else:
